@@ -183,7 +183,12 @@ var reservedNames = map[string]bool{"and": true, "or": true, "div": true, "mod":
 
 // normalise rewrites away the features of the open grammar findings; returns
 // the new AST and the ids of the findings whose feature was present.
-func c08Normalise(e xast.Expr) (xast.Expr, []string) {
+func c08Normalise(e xast.Expr) (xast.Expr, []string) { return c08NormaliseOpt(e, false) }
+
+// c08NormaliseOpt: with keepLiterals the characters of string literals are left alone — an
+// expression that both sides accept denotes the literal's characters as written, and no open
+// finding says otherwise.
+func c08NormaliseOpt(e xast.Expr, keepLiterals bool) (xast.Expr, []string) {
 	used := map[string]bool{}
 	fixName := func(n string, fn bool) string {
 		if reservedNames[n] || (fn && (refparseAxis(n) || n == "comment" || n == "text" || n == "node" || n == "processing-instruction")) {
@@ -224,7 +229,7 @@ func c08Normalise(e xast.Expr) (xast.Expr, []string) {
 			}
 			return v
 		case xast.Lit:
-			if strings.Contains(v.S, "\\") {
+			if strings.Contains(v.S, "\\") && !keepLiterals {
 				used["grammar-backslash-literal"] = true
 				return xast.Lit{S: strings.ReplaceAll(v.S, "\\", "B")}
 			}
@@ -323,6 +328,10 @@ var c08Rewrites = []struct {
 	{"grammar-backslash-literal", func(s string) string {
 		return strings.NewReplacer(`\'`, "B", `\"`, "B", `\\`, "B").Replace(s)
 	}},
+	{"grammar-backslash-literal", func(s string) string {
+		// the generated lexer takes the longest match: in \\' the second backslash may be the one that hides the quote
+		return strings.NewReplacer(`\'`, "B", `\"`, "B").Replace(s)
+	}},
 	{"grammar-axis-name-lexing", func(s string) string { return reAxisMangled.ReplaceAllString(s, "self") }},
 	{"grammar-slash-star", func(s string) string {
 		return reSlashStar.ReplaceAllStringFunc(s, func(m string) string {
@@ -383,7 +392,9 @@ func c08Judge(r *evid.Run, idx int, class, rendering, s string, genAST xast.Expr
 				continue
 			}
 			mv, me := c08Model(ast2)
-			if c08Agree(lib, mv, me, false) == "" || evalFails(lib) || hasFnStepWithArgs(ast2) || hasNamespaceAxisNameTest(ast2) {
+			// a literal in which backslash hides a quote has no counterpart in XPath 1.0 whose value the
+			// library's could be compared with: the counterfactual parse alone attributes the acceptance
+			if rw.id == "grammar-backslash-literal" || c08Agree(lib, mv, me, false) == "" || evalFails(lib) || hasFnStepWithArgs(ast2) || hasNamespaceAxisNameTest(ast2) {
 				if known([]string{rw.id}, what) {
 					sig("known")
 					return
@@ -439,7 +450,7 @@ func c08Judge(r *evid.Run, idx int, class, rendering, s string, genAST xast.Expr
 		mv, me := c08Model(use)
 		if msg := c08Agree(lib, mv, me, strict); msg != "" {
 			// a reserved word read as an operator where the grammar makes it a name?
-			if norm, ids := c08Normalise(use); len(ids) > 0 {
+			if norm, ids := c08NormaliseOpt(use, true); len(ids) > 0 {
 				lib2 := c08Lib(xast.String(norm))
 				if lib2.buildErr == nil {
 					mv2, me2 := c08Model(norm)
@@ -550,7 +561,7 @@ func c08Case(r *evid.Run, tier string, idx int, g *rng.R) {
 	_, _, targets := vocab(d)
 	elems, attrs := c08Vocab(g, d)
 	cfg := &xast.Cfg{Elems: elems, Attrs: attrs, Prefixes: []string{"p", "q", "r", "self", "node", "child"}, Targets: targets, Axes: xast.Axes, MaxSteps: 3, MaxDepth: 3, PredPct: 35, Abbrev: 50,
-		Unions: true, Filters: true, AbsInPred: true, FnSteps: true, StrLits: []string{"", "a", "1", " 2 ", "é", "x y", "it's", "q\"q"}, NumLits: []float64{0, 1, 2, 0.5, 1.5, 100, 12.25},
+		Unions: true, Filters: true, AbsInPred: true, FnSteps: true, StrLits: []string{"", "a", "1", " 2 ", "é", "x y", "it's", "q\"q", "a\\nb", "C:\\\\new", "t\\tt", "a\\b", "x\\", "a\\rb"}, NumLits: []float64{0, 1, 2, 0.5, 1.5, 100, 12.25},
 		Vars: []xast.VarSpec{{Local: "n", T: xast.TNum}, {Local: "s", T: xast.TStr}, {Local: "and", T: xast.TNum}, {Prefix: "p", Local: "v", T: xast.TStr}, {Local: "x-1", T: xast.TNum}}}
 	funcs := map[string]bool{}
 	for k := range xast.AllFuncs {
